@@ -16,6 +16,7 @@ import (
 	"github.com/openfga/openfga/internal/verifsim/simrt"
 	"github.com/openfga/openfga/internal/verifsim/simstore"
 	"github.com/openfga/openfga/pkg/server"
+	"github.com/openfga/openfga/pkg/storage"
 	"github.com/openfga/openfga/pkg/typesystem"
 )
 
@@ -35,6 +36,9 @@ func c16Gen(runSeed uint64, tier string) *gen.Scenario {
 	g := gen.New(runSeed ^ 0xc16)
 	nStores := 2 + g.Intn(2)
 	sc.Knobs["stores"] = int64(nStores)
+	if g.Chance(0.1) {
+		sc.Knobs["sqlite"] = 1 // the real SQLite backend instead of the memory backend
+	}
 	valid := func(ts []rm.Tuple) []rm.Tuple {
 		var out []rm.Tuple
 		seen := map[string]bool{}
@@ -598,6 +602,38 @@ func c16Exec(t *testing.T, sc *gen.Scenario, trace bool) *harness.Outcome {
 					listed[x.GetId()] = true
 				}
 				e.Out.Evals++
+				// the id-filtered listing (what the access-control layer asks the datastore for) and the
+				// name-filtered one obey the same rule
+				var allIDs []string
+				for _, o := range stores {
+					allIDs = append(allIDs, o.id)
+				}
+				byID, _, lerr := e.DS.ListStores(ctx, storage.ListStoresOptions{IDs: allIDs, Pagination: storage.PaginationOptions{PageSize: 50}})
+				if lerr != nil {
+					e.Violate("unexpected_error:liststores", "op=stores ids", "op %d: datastore ListStores with an id filter: %v", i, lerr)
+					cancel()
+					return
+				}
+				listedByID := map[string]bool{}
+				for _, x := range byID {
+					listedByID[x.GetId()] = true
+				}
+				for _, o := range stores {
+					if o.deleted == listedByID[o.id] {
+						e.Violate(map[bool]string{true: "deleted_store_visible", false: "live_store_missing"}[o.deleted], "op=stores ids", "op %d: store %s deleted=%v, but listed=%v by the id-filtered datastore listing", i, o.name, o.deleted, listedByID[o.id])
+						cancel()
+						return
+					}
+					nresp, nerr := s.ListStores(ctx, &openfgav1.ListStoresRequest{Name: "s" + o.name})
+					if o.name == "S1" {
+						nresp, nerr = s.ListStores(ctx, &openfgav1.ListStoresRequest{Name: "s1"})
+					}
+					if nerr == nil && o.deleted == (len(nresp.GetStores()) > 0) {
+						e.Violate(map[bool]string{true: "deleted_store_visible", false: "live_store_missing"}[o.deleted], "op=stores name", "op %d: store %s deleted=%v, but the name-filtered listing returned %d stores", i, o.name, o.deleted, len(nresp.GetStores()))
+						cancel()
+						return
+					}
+				}
 				for _, o := range stores {
 					_, gerr := s.GetStore(ctx, &openfgav1.GetStoreRequest{StoreId: o.id})
 					if o.deleted && (listed[o.id] || gerr == nil) {
